@@ -783,6 +783,7 @@ NextLaneTask:
 
 func (c *Change) abortTasks(tasks []*Task, abortedLanes map[int]bool, seenTasks map[string]bool) {
 	var lanes []int
+	var hold []*Task
 	for i := 0; i < len(tasks); i++ {
 		t := tasks[i]
 		if seenTasks[t.id] {
@@ -791,8 +792,13 @@ func (c *Change) abortTasks(tasks []*Task, abortedLanes map[int]bool, seenTasks 
 		seenTasks[t.id] = true
 		switch taskEffectiveStatus(t) {
 		case DoStatus:
-			// Still pending so don't even start.
-			t.SetStatus(HoldStatus)
+			// Still pending so don't even start. The status is
+			// changed below, once the tasks that already ran
+			// have been flagged: putting the pending tasks on
+			// hold first can make all tasks look ready for a
+			// moment, the change is then marked ready and
+			// panics when a done task is set to undo.
+			hold = append(hold, t)
 		case DoingStatus:
 			// In progress so stop and undo it.
 			t.SetStatus(AbortStatus)
@@ -812,6 +818,9 @@ func (c *Change) abortTasks(tasks []*Task, abortedLanes map[int]bool, seenTasks 
 				tasks = append(tasks, halted)
 			}
 		}
+	}
+	for _, t := range hold {
+		t.SetStatus(HoldStatus)
 	}
 	if len(lanes) > 0 {
 		c.abortLanes(lanes, abortedLanes, seenTasks)
